@@ -89,6 +89,7 @@ func main() {
 	for i := 0; i < nRandom; i++ {
 		cf := cfg
 		cf.LiquidationInterval = int64(1 + i%3)
+		cf.KavadistInfra = i%2 == 1
 		plans = append(plans, history.Plan{Name: fmt.Sprintf("random-%d", i), Cfg: cf, Blocks: blocks, MaxTxs: 7, PriceEvery: 5})
 	}
 	for i := range plans {
